@@ -159,7 +159,8 @@ func getCorpus(id int) *sCorpus {
 			CommitURLTemplate:    fmt.Sprintf("http://t%d.example/%s/commit/{{.Version}}", tenantID, name),
 			FileURLTemplate:      fmt.Sprintf("http://t%d.example/%s/blob/{{.Version}}/{{.Path}}", tenantID, name),
 			LineFragmentTemplate: fmt.Sprintf("#t%d%sL{{.LineNumber}}", tenantID, name),
-			Metadata:             map[string]string{"k": []string{"aa", "bb", "cc"}[rng.IntN(3)], "owner": fmt.Sprintf("team%d", i%3)},
+			// "k" and "K" are different metadata fields
+			Metadata:             map[string]string{"k": []string{"aa", "bb", "cc"}[rng.IntN(3)], "K": []string{"aa", "bb", "cc"}[(i+id)%3], "owner": fmt.Sprintf("team%d", i%3)},
 			RawConfig:            map[string]string{"priority": []string{"0", "5", "10", "10"}[rng.IntN(4)], "public": "1"},
 			Branches:             []zoekt.RepositoryBranch{{Name: "HEAD", Version: fmt.Sprintf("v%d-%d", id, i)}},
 		}
@@ -186,6 +187,9 @@ func getCorpus(id int) *sCorpus {
 					}
 				}
 				sb.WriteByte('\n')
+				if rng.IntN(5) == 0 {
+					sb.WriteByte('\n') // an empty line
+				}
 			}
 			ext := []string{".go", ".txt", ".md", ".py"}[rng.IntN(4)]
 			doc := index.Document{Name: fmt.Sprintf("dir%d/f%d%s", d%2, d, ext), Content: []byte(sb.String()), Branches: []string{"HEAD"}}
@@ -198,6 +202,10 @@ func getCorpus(id int) *sCorpus {
 				}
 			}
 			r.Docs = append(r.Docs, doc)
+		}
+		if id%2 == 1 && i%2 == 1 {
+			// the first document of this repository is hidden by a file tombstone
+			r.Repo.FileTombstones = map[string]struct{}{r.Docs[0].Name: {}}
 		}
 		c.Repos = append(c.Repos, r)
 	}
@@ -378,7 +386,7 @@ func genRepoAtom(tp *simrt.Tape, c *sCorpus) query.Q {
 		}
 		return br
 	case 4:
-		return &query.Meta{Field: []string{"k", "owner", "nofield"}[tp.Gen(3)], Value: regexp.MustCompile([]string{"aa", "bb", "^(aa|cc)$", "team1", "."}[tp.Gen(5)])}
+		return &query.Meta{Field: []string{"k", "owner", "nofield", "K"}[tp.Gen(4)], Value: regexp.MustCompile([]string{"aa", "bb", "^(aa|cc)$", "team1", "."}[tp.Gen(5)])}
 	default:
 		return &query.Meta{Field: "k", Value: regexp.MustCompile([]string{"aa", "bb", "cc"}[tp.Gen(3)])}
 	}
